@@ -1,3 +1,4 @@
+import Rio.Model.MirrorStore
 import Rio.Model.KvfsFs
 import Driver.Parse
 import Rio.Model.ZipHdr
@@ -234,6 +235,46 @@ def kvfs2Engine : List String → String
       let stg := ([1, 2].filter (fun n => (s2.staging n).isSome)).length
       s!"resA={res s2 0} resB={res s1 1} afterB={label s1} afterA={label s2} staging={stg}"
     | _, _, _ => "bad-op"
+  | _ => "bad-op"
+
+def showOutcomeU (o : Outcome Unit) : String :=
+  match o with
+  | .ok _ => "ok"
+  | .err c => "err " ++ c.tok
+  | .panic _ => "panic"
+
+/-- `mirrorstore <ca|mono> <empty|other> <good|other|corrupt|none:<cat>>` — `CreateMirror` of ware W against a target
+    store (Rio/Model/MirrorStore.lean): the answer, what a fetch of W from the target alone then finds, and the answer
+    of mirroring again with no source. W and the other ware are two fixed small wares (identity hash). -/
+def mirrorStoreEngine : List String → String
+  | [kind, tstate, src] =>
+    let H : Bytes → Bytes := fun b => b
+    let mkH (name : Bytes) (tf : UInt8) (ch : Bytes) : TarHdr :=
+      { name := name, typeflag := tf, mode := 0o644, uid := 0, gid := 0, size := 1, linkname := [], devmajor := 0, devminor := 0,
+        mtime := ⟨1000000000, 0⟩, xattrs := [], chash := ch, bodyOk := true }
+    let wareO : Stored := ⟨[mkH [46, 47] 53 [], mkH [97] 48 [1]], .eof, List.replicate 10 0⟩
+    let wareW : Stored := ⟨[mkH [46, 47] 53 [], mkH [97] 48 [2]], .eof, List.replicate 10 0⟩
+    let idOf (s : Stored) : Bytes := match scanId H s with | .ok i => i | _ => []
+    let k : TgtKind := if kind = "ca" then .ca else .mono
+    let t0 : Target := ⟨k, fun _ => none⟩
+    let t : Target := if tstate = "other" then t0.put (idOf wareO) wareO else t0
+    let cats : List Cat := [.wareNotFound, .whUnavailable, .usage, .whUnwritable]
+    let (pick, obj) : PickRes × Stored :=
+      if src = "good" then (.opened 0, wareW)
+      else if src = "other" then (.opened 0, wareO)
+      else if src = "corrupt" then (.opened 0, { wareW with fin := .corrupt })
+      else if src = "corrupt-body" then   -- the stream breaks off inside a file body
+        (.opened 0, ⟨[mkH [46, 47] 53 [], { mkH [97] 48 [2] with bodyOk := false }], .corrupt, List.replicate 10 0⟩)
+      else
+        let c := (cats.find? (fun c => "none:" ++ c.tok = src)).getD .wareNotFound
+        (.err c, wareW)
+    let r := mirrorStore H (idOf wareW) t true pick obj true
+    match r.1 with
+    | .ok _ =>
+      let alone := fetchAlone H r.2 (idOf wareW)
+      let again := mirrorStore H (idOf wareW) r.2 true (.err .wareNotFound) wareW true
+      s!"res=ok alone={showOutcomeU alone} again={showOutcomeU again.1}"
+    | o => s!"res={showOutcomeU o} alone=- again=-"
   | _ => "bad-op"
 
 def showTd : TdEv → String
